@@ -127,3 +127,28 @@ func VerifScanDeserialize() {
 		}
 	}
 }
+
+// VerifCellTestVectors: the repository's own TestCellFromCellBlock literal, all of its
+// truncations and its corrupted-length variant, run concretely through the engine and (native
+// validation) through the compiled code; the observations must coincide.
+func VerifCellTestVectors() {
+	cellblock := []byte{0, 0, 0, 48, 0, 0, 0, 19, 0, 0, 0, 21, 0, 4, 114, 111, 119, 55, 2, 99,
+		102, 97, 0, 0, 1, 92, 13, 97, 5, 32, 4, 72, 101, 108, 108, 111, 32, 109, 121, 32, 110,
+		97, 109, 101, 32, 105, 115, 32, 68, 111, 103, 46}
+	c, n, err := cellFromCellBlock(cellblock)
+	verifAssert(err == nil && int(n) == len(cellblock), "the literal cell decodes and is consumed whole")
+	verifAssert(string(c.Row) == "row7" && string(c.Family) == "cf" && string(c.Qualifier) == "a" &&
+		string(c.Value) == "Hello my name is Dog." && *c.Timestamp == 1494873081120 && *c.CellType == 4,
+		"the literal cell decodes to the fields the repository's test expects")
+	verifObserveBytes("row", c.Row)
+	verifObserveBytes("value", c.Value)
+	for i := range cellblock {
+		c, n, err := cellFromCellBlock(cellblock[:i:i])
+		verifAssert(err != nil && n == 0 && c == nil, "every truncation of the literal cell is an error")
+	}
+	cellblock[3] = 42
+	_, _, err = cellFromCellBlock(cellblock)
+	verifAssert(err != nil, "a wrong KeyValue length is an error")
+	verifObserveBool("err", err != nil)
+	verifReach("vectors")
+}
